@@ -9,6 +9,10 @@ NOTE = ("Trusted: Lean 4.33 kernel; axioms propext, Classical.choice, Quot.sound
         "harness/translate.py; the correspondence check (differential testing, generator quality bounds what it sees). ")
 
 CHECKS = {
+    "C07": dict(
+        text="The design-matrix columns of least_squares.py and the element kernels R, K, Ky, C, L are re-translated from /repo on every run. Proved for ALL angular frequencies != 0, any number of RC elements and all variable vectors: every real / imaginary row of A.x is the real / imaginary part of the immittance of the circuit that _update_circuit builds from x, in the impedance representation (series R, K elements, C = 1/x_C, L = x_L: rows_represent_model_Z) and in the admittance representation (parallel R = 1/x_0, Ky elements, C = x_C, L = -1/x_L: rows_represent_model_Y) - this is where a wrong column, sign or reciprocal lives; a least-squares minimiser of a consistent system solves it exactly, recovers the generating variables under full column rank, and the normal equations of the matrix-inversion tests do (lsq_exact_of_consistent, lsq_recovers, normal_equations_exact). Ties: translator cross-check; the row statements re-checked on the real _generate_A_matrix/_generate_circuit/_update_circuit. PARTIAL: 'zero to numerical precision', parameter recovery, the two-stage real/imaginary procedures, the matrix-inversion variants' own matrices and the non-linear test are decided by the end-to-end oracle with tolerances (conditioning, lstsq/pinv/inv, lmfit are runtime).",
+        ref="§4 C07", tech=TECH_T,
+        note=NOTE + "numpy.linalg and lmfit are replaced by their specifications (least-squares minimiser) in the theorems."),
     "C06": dict(
         text="Proved on the model of _detect_columns: for EVERY header row in which each quantity occurs at most once and every header is a recognised alias, optionally preceded by '-' or U+2212 and optionally followed by a unit suffix starting (after at most one blank) with '(' '/' or '[' - any alias, any marker, any suffix text, any column order - every quantity is mapped to its own column and flagged sign-inverted exactly when marked (classify_header, detect_columns_correct; the finite core over 26 aliases x 3 markers x 6 suffix starts is decided by kernel evaluation, the arbitrary suffix tail by a prefix lemma); the CLI's own header row is detected (cli_header_is_detected). Proved on the model of _split_sweeps: the concatenation of k >= 1 strictly monotone runs whose junctions break the direction is split into exactly those runs (split_sweeps_concat). Ties: both functions compared with the model on generated and adversarial inputs. PARTIAL: separators, decimal marks, polar/cartesian extraction and the instrument layouts (.mpt .i2b .P00 .dfr .dta .z) are decided by the direct oracle on real temporary files.",
         ref="§4 C06", tech=TECH_H,
